@@ -1226,7 +1226,13 @@ def rule_constraint_entry(repo):
                                                  f"of the missing kind on this side of a constraint is compared as the interface object itself and never "
                                                  f"matches the method the blocks call -- the ordering constraint is silently lost", n.lineno]))
     # constraints exported for top-level callee ports: inside `for zz in equiv[W]` the pair is the plain pair with W replaced by zz
-    adds = [c for c in ast.walk(g) if isinstance(c, ast.Call) and norm(c.func).endswith('top_level_callee_constraints.add') and c.args
+    recv = set()
+    for n in ast.walk(g):
+        if isinstance(n, ast.Assign) and (any(norm(t).endswith('top_level_callee_constraints') for t in n.targets)
+                                          or norm(n.value).endswith('top_level_callee_constraints')):
+            recv |= {t.id for t in n.targets if isinstance(t, ast.Name)}       # local alias of the exported set
+    adds = [c for c in ast.walk(g) if isinstance(c, ast.Call) and isinstance(c.func, ast.Attribute) and c.func.attr == 'add'
+            and (norm(c.func.value).endswith('top_level_callee_constraints') or norm(c.func.value) in recv) and c.args
             and isinstance(c.args[0], ast.Tuple) and len(c.args[0].elts) == 2]
     plain = [c for c in adds if not any(isinstance(a, ast.For) and norm(a.iter).startswith('equiv[') for a in _ancestors(c))]
     if not plain:
@@ -1499,6 +1505,9 @@ MUTANTS = [
 ]
 
 EQUIV = [
+    dict(name='callee-constraints-set-alias', rule=None, edits=[
+        dict(file=GENDAG, old="    top._dag.top_level_callee_constraints = set()\n", new="    callee_constraints = top._dag.top_level_callee_constraints = set()\n", count=1),
+        dict(file=GENDAG, old="top._dag.top_level_callee_constraints.add(", new="callee_constraints.add(", count=4)]),
     _m('whole-array-fifo-worklist', L2, "              m = Q.pop()\n              if isinstance( m, NamedObject ):", "              m = Q.pop(0)\n              if isinstance( m, NamedObject ):"),
     _m('constraint-sign-ifexp', L2, "        sign = 1 # RD(x) < U is 1, RD(x) > U is -1\n        if isinstance( x1, ValueConstraint ):\n          sign = -1\n          x0, x1 = x1, x0 # Make sure x0 is RD/WR(...) and x1 is U(...)\n",
        "        sign = -1 if isinstance( x1, ValueConstraint ) else 1\n        if sign == -1:\n          x0, x1 = x1, x0 # Make sure x0 is RD/WR(...) and x1 is U(...)\n"),
